@@ -6,8 +6,11 @@
 package t2s
 
 import (
+	"encoding/json"
 	"fmt"
+	"os"
 	"strings"
+	"time"
 
 	"github.com/cocosip/go-dicom-codecs/jpeg2000/t2"
 	. "verif/harness/vhlib"
@@ -24,18 +27,31 @@ func runC04(c *Ctx) {
 		"numpasses / comma / Lblock codes over their whole domain, packet headers over layers (1..3 bands, empty bands, late inclusion, zero-length contributions, TERMALL), " +
 		"whole tiles through PacketEncoder/PacketDecoder (all progressions, default and scaled precincts); non-trivial = at least 2 values (bio), 2 leaves and 2 ops (tagtree), " +
 		"np >= 2 or a length >= 8 (codes), at least 2 blocks and 2 layers (header, packets)"
-	suiteBio(c)
-	suiteTagTree(c)
-	suiteCodes(c)
-	suiteHeader(c)
-	suitePackets(c)
+	for _, s := range []struct {
+		name string
+		f    func(*Ctx)
+	}{{"bio", suiteBio}, {"tagtree", suiteTagTree}, {"codes", suiteCodes}, {"header", suiteHeader}, {"packets", suitePackets}} {
+		runTimed(c, s.name, s.f)
+	}
 }
 
 func runC08(c *Ctx) {
 	c.R.Rule = "t2 parse: packet-header parser and DecodePackets on garbage (random bytes, all FF, valid headers with flipped bits / truncated at every offset), random band grids incl. " +
 		"out-of-grid positions and empty grids, fresh / carried-over / preset garbage state, layers 0..70000, termAll both, strict/resilient; non-trivial = at least one non-empty band and 2 data bytes"
-	suiteParse(c)
-	suiteParsePackets(c)
+	runTimed(c, "parse", suiteParse)
+	runTimed(c, "parsepk", suiteParsePackets)
+}
+
+// runTimed runs one sub-suite (all of them unless VERIF_T2_ONLY names a comma-separated
+// subset: development aid) and records its wall time as a note.
+func runTimed(c *Ctx, name string, f func(*Ctx)) {
+	if only := os.Getenv("VERIF_T2_ONLY"); only != "" && !strings.Contains(","+only+",", ","+name+",") {
+		c.Rng.Fork() // keep the PRNG stream of the other suites unchanged
+		return
+	}
+	t0 := time.Now()
+	f(c)
+	c.R.Note("t2:%s wall time %.1fs (%s tier)", name, time.Since(t0).Seconds(), c.Tier)
 }
 
 func b01(b bool) string {
@@ -118,3 +134,51 @@ func (s *bitSource) ReadBit() (int, error) {
 
 var _ t2.BitWriter = (*bitSink)(nil)
 var _ t2.BitReader = (*bitSource)(nil)
+
+// genRef identifies a generated case: it is regenerated from (gseed, i). Every failure input
+// carries one, so a result file can be passed back with -replay.
+type genRef struct {
+	GSeed uint64 `json:"gseed"`
+	I     int    `json:"i"`
+}
+
+// caseRefs returns the case list of a suite: n fresh (seed, index) pairs, or - when
+// replaying - the recorded ones of the given failure suites (plus the corpus entries first).
+func caseRefs(c *Ctx, rng *Rand, n int, suites ...string) []genRef {
+	var out []genRef
+	add := func(raws []json.RawMessage) {
+		for _, raw := range raws {
+			var g struct {
+				genRef
+				Input *genRef `json:"input"`
+				Enc   *genRef `json:"enc"`
+			}
+			if json.Unmarshal(raw, &g) != nil {
+				continue
+			}
+			switch {
+			case g.Input != nil && g.Input.GSeed != 0:
+				out = append(out, *g.Input)
+			case g.Enc != nil && g.Enc.GSeed != 0:
+				out = append(out, *g.Enc)
+			case g.GSeed != 0:
+				out = append(out, g.genRef)
+			}
+		}
+	}
+	replaying := false
+	for _, s := range suites {
+		add(c.CorpusInputs(s))
+		if r := c.ReplayInputs(s); r != nil {
+			replaying = true
+			add(r)
+		}
+	}
+	if replaying {
+		return out
+	}
+	for i := 0; i < n; i++ {
+		out = append(out, genRef{rng.U64() | 1, i})
+	}
+	return out
+}
